@@ -198,6 +198,8 @@ def run_property(pid: str, level: str, tier: str, jobs: list, meta: dict) -> int
         "trusted_base": meta.get("trusted", TRUSTED),
     }
     cov.update(meta.get("extra_coverage", {}))
+    if stats_sum:
+        cov["aggregated_stats"] = stats_sum
     if level == "model_checking":
         # a state = one explored schedule prefix (CrossHair path); a transition = one message
         # post / delivery executed by the real executor under the simulated layer
@@ -213,10 +215,11 @@ def run_property(pid: str, level: str, tier: str, jobs: list, meta: dict) -> int
     print(f"{pid} [{tier}] obligations={n_ob} discharged={n_ok} inconclusive={n_inc} candidates={n_cand} "
           f"reproduced={n_repro} sides={n_sides} side_failures={n_side_fail} declined={n_declined} "
           f"paths={paths} solver={solver_s:.1f}s/{queries}q wall={wall:.1f}s")
-    if harness_errors:
-        return EXIT_HARNESS
+    # a reproduced violation is reported as such even if some other job of the run could not be evaluated
     if violations:
         return EXIT_VIOLATION
+    if harness_errors:
+        return EXIT_HARNESS
     return EXIT_OK
 
 
